@@ -171,13 +171,20 @@ def _fsync(fd):
     FSYNC['sizes'].append(os.fstat(fd).st_size)     # what has reached the file when fsync is asked for
 
 
-class Fac(object):
-    peer_addr = PEER
+def peer_object(spelling):
+    """what a callback gets as `peer`: protocol.factory.peer_addr is the address as configured"""
+    fac = type('Fac', (object,), {'peer_addr': spelling})
+    return type('Peer', (object,), {'factory': fac(), 'msg_recv_stat': {'Keepalives': 2}})()
 
 
-class Peer(object):
-    factory = Fac()
-    msg_recv_stat = {'Keepalives': 2}
+# peer addresses as they can be configured (oslo.config's IPOpt keeps the spelling)
+PEERS = ['10.0.0.2', '2001:db8::1', '2001:DB8::1', '2001:dB8:0:0:AbCd::F', 'FE80::ABCD:EF01', '::FFFF:10.0.0.2',
+         '2001:DB8:AAAA:BBBB:CCCC:DDDD:EEEE:FFFF']
+PEERSTAT = {}
+
+
+def coq_addr(a):
+    return '[%s]' % '; '.join('%d' % x for x in a.encode('ascii'))
 
 
 _setup_done = {}
@@ -243,15 +250,29 @@ def split_lines(data):
 
 
 class World(object):
-    def __init__(self, root, thr, files=None):
+    def __init__(self, root, thr, files=None, peer=PEER, spellings=None, share=None):
+        """peer: remote_addr as configured; spellings: the addresses the callbacks arrive with, in
+        turn (default: the configured one); share: another World whose handler (and write_dir)
+        this peer is registered in through init_msg_file"""
         self.dh = setup()
         self.root = root
         self.thr = thr
+        self.peer = peer
+        self.key = peer.lower()
+        self.spellings = list(spellings or [peer])
+        self.nspell = 0
+        self.spelling = peer
+        self.share = share
+        self.handler = None
+        self.hevents = []          # the same events for the handler-level model (with the address)
         # a world created on given contents has its msg directory before the first start anyway:
         # such directories are emptied and reused (the sweep over cut offsets makes thousands)
         self.pooled = files is not None
-        self.dir = POOL.pop() if self.pooled and POOL else tempfile.mkdtemp(prefix='case', dir=root)
-        self.msgdir = os.path.join(self.dir, PEER, 'msg')
+        if share is not None:
+            self.dir = share.dir
+        else:
+            self.dir = POOL.pop() if self.pooled and POOL else tempfile.mkdtemp(prefix='case', dir=root)
+        self.msgdir = os.path.join(self.dir, self.key, 'msg')
         self.h = None
         self.exits = 0
         self.nrep = 0
@@ -271,6 +292,8 @@ class World(object):
 
     def close(self):
         self.kill()
+        if self.share is not None:
+            return
         if self.pooled:
             for n in os.listdir(self.msgdir):
                 os.unlink(os.path.join(self.msgdir, n))
@@ -285,7 +308,7 @@ class World(object):
         CONF.set_override('write_disk', True, group='message')
         CONF.set_override('write_msg_max_size', self.thr, group='message')
         CONF.set_override('write_keepalive', write_keepalive, group='message')
-        CONF.bgp.running_config = {'remote_addr': PEER}      # last: overrides reset it
+        CONF.bgp.running_config = {'remote_addr': (self.share or self).peer}      # last: overrides reset it
 
     def start(self):
         self.conf()
@@ -297,10 +320,16 @@ class World(object):
         for b in (4096, 65536):
             if len(tail) > b:
                 TAILS['longer_than_%d' % b] += 1
-        h = self.dh.DefaultHandler()
+        PEERSTAT[self.peer] = PEERSTAT.get(self.peer, 0) + 1
+        if self.share is None:
+            h = self.handler = self.dh.DefaultHandler()
+            boot = h.init
+        else:                              # a further peer of the same process
+            h = self.share.handler
+            boot = lambda: h.init_msg_file(self.key)     # as init() does for the configured one
         del PARSED[:]
         try:
-            h.init()
+            boot()
         except SystemExit:
             self.exits += 1
             self.h = None
@@ -311,13 +340,13 @@ class World(object):
 
     def kill(self):
         if self.h is not None:
-            f = self.h.peer_files.get(PEER, (None, None))[1]
+            f = self.h.peer_files.get(self.key, (None, None))[1]
             if f is not None and not f.closed:
                 f.close()
         self.h = None
 
     def cur_file(self):
-        return self.h.peer_files[PEER][1].name
+        return self.h.peer_files[self.key][1].name
 
     # --- observation
     def read(self):
@@ -355,7 +384,7 @@ class World(object):
             ls = split_lines(data)
             files.append([[classify(t, term) for t, term in ls],
                           bool(ls) and not ls[-1][1], len(data.encode('utf-8'))])
-        nxt = [self.h.msg_sequence[PEER]] if self.h is not None else []
+        nxt = [self.h.msg_sequence[self.key]] if self.h is not None else []
         return [files, nxt, self.exits, self.nrep]
 
     # --- events
@@ -372,7 +401,7 @@ class World(object):
             payload, ok = None, True
         elif is_sized(pid):
             payload = sized_payload(self.dh.json.dumps, ts if cb in EXPLICIT_TS else CLOCK.now + 1.0,
-                                    h.msg_sequence[PEER], tys[cb], pid[1])
+                                    h.msg_sequence[self.key], tys[cb], pid[1])
             ok = True
         else:
             ok, payload = PAYLOADS[pid]
@@ -383,7 +412,26 @@ class World(object):
         calls0 = FSYNC['calls']
         if no_rotation:
             h.check_file_size = lambda peer: False      # the process dies before it gets there
-        p = Peer()
+        spelling = self.spellings[self.nspell % len(self.spellings)]
+        self.nspell += 1
+        self.spelling = spelling
+        p = peer_object(spelling)
+        try:
+            ty = self.dispatch(h, cb, p, spelling, ts, payload, rr)
+        except Exception as e:             # "every reported event appends exactly one line"
+            ty = tys[cb]
+            self.problems.append('%s for peer address %r raised %s(%s): the event is not logged'
+                                 % (cb, spelling, type(e).__name__, str(e)[:60]))
+        finally:
+            if no_rotation:
+                del h.check_file_size
+        if cb in ('route_refresh_received', 'notification_received', 'on_connection_lost',
+                  'on_connection_failed'):
+            ts = CLOCK.now
+        return self.after_call(cb, pid, cur, before, calls0, ts, ty, ok, payload)
+
+    def dispatch(self, h, cb, p, spelling, ts, payload, rr):
+        bc = self.dh.bgp_cons
         if cb == 'send_open':
             h.send_open(p, ts, payload); ty = 1
         elif cb == 'open_received':
@@ -401,14 +449,12 @@ class World(object):
         elif cb == 'on_connection_lost':
             h.on_connection_lost(p); ty = bc.MSG_BGP_CLOSED
         elif cb == 'on_connection_failed':
-            h.on_connection_failed(PEER, payload); ty = 0
+            h.on_connection_failed(spelling, payload); ty = 0
         else:
             raise ValueError(cb)
-        if cb in ('route_refresh_received', 'notification_received', 'on_connection_lost',
-                  'on_connection_failed'):
-            ts = CLOCK.now
-        if no_rotation:
-            del h.check_file_size
+        return ty
+
+    def after_call(self, cb, pid, cur, before, calls0, ts, ty, ok, payload):
         sz = os.path.getsize(cur) - before
         wrote = sz > 0
         self.maxline = max(self.maxline, sz)
@@ -421,6 +467,16 @@ class World(object):
         exp = {'t': ts, 'type': ty, 'msg': norm(payload)} if ok else {'t': ts, 'type': ty}
         return cur, before, sz, ok, wrote, exp
 
+    def log(self, text):
+        """one executed event, for the single-peer model and (with the address it arrived with) for the
+        handler-level model"""
+        self.events.append(text)
+        if text == 'Restart':
+            self.hevents.append('HRestart')
+        else:
+            kind, rest = text.split(' ', 1)
+            self.hevents.append('H%s %s %s' % (kind, coq_addr(self.spelling), rest))
+
     def coq_cb(self, cb, wk):
         return '(Keepalive %s)' % ('true' if wk else 'false') if cb == 'keepalive_received' else COQ_CB[cb]
 
@@ -429,15 +485,15 @@ class World(object):
         if ev[0] == 'restart':
             self.kill()
             self.start()
-            self.events.append('Restart')
+            self.log('Restart')
             return
         cb, pid, wk = ev[1], ev[2], ev[3]
         if self.h is None:                       # the agent is not running: nothing happens
             if ev[0] == 'crash':
                 self.start()
-                self.events.append('Crash %s true 2 %d' % (self.coq_cb(cb, wk), ev[4]))
+                self.log('Crash %s true 2 %d' % (self.coq_cb(cb, wk), ev[4]))
             else:
-                self.events.append('Ev %s true 2' % self.coq_cb(cb, wk))
+                self.log('Ev %s true 2' % self.coq_cb(cb, wk))
             return
         if ev[0] == 'ev':
             nlines = self.count_lines()
@@ -451,7 +507,7 @@ class World(object):
             should = cb != 'keepalive_received' or wk
             if self.count_lines() != nlines + (1 if should else 0):
                 self.problems.append('%s appended %d lines' % (cb, self.count_lines() - nlines))
-            self.events.append('Ev %s %s %d' % (self.coq_cb(cb, wk), 'true' if ok else 'false', max(sz, 2)))
+            self.log('Ev %s %s %d' % (self.coq_cb(cb, wk), 'true' if ok else 'false', max(sz, 2)))
             return
         # crash inside this callback's write at octet ev[4]
         self.crash_prepare(cb, pid, wk)
@@ -462,7 +518,7 @@ class World(object):
         self.kill()
         self.pending = (cur, before, sz, ok, wrote, exp, self.coq_cb(cb, wk))
 
-    def crash_finish(self, k):
+    def crash_finish(self, k, restart=True):
         cur, before, sz, ok, wrote, exp, ccb = self.pending
         if k < 0:                                   # -1: everything but the newline
             k = max(sz + k, 0)
@@ -478,8 +534,9 @@ class World(object):
                 self.expected.append(exp)
                 if not ok:
                     self.flags.add('ser')
-        self.events.append('Crash %s %s %d %d' % (ccb, 'true' if ok else 'false', max(sz, 2), k))
-        self.start()
+        self.log('Crash %s %s %d %d' % (ccb, 'true' if ok else 'false', max(sz, 2), k))
+        if restart:
+            self.start()
 
     def count_lines(self):
         return sum(d.count('\n') for _, d in self.read())
@@ -569,6 +626,57 @@ class World(object):
             else:
                 return None, w
         return (ids[0] if ids else None), None
+
+
+class Pair(object):
+    """two peers served by one handler in one process: init() registers the configured one,
+    init_msg_file() the second (as init() does: with the lower-cased address); one write_dir.
+    events: ['ev', who, cb, pid, wk] | ['restart'] | ['crash', who, cb, pid, wk, k]"""
+    def __init__(self, root, thr, peers):
+        self.thr = thr
+        self.a = World(root, thr, peer=peers[0])
+        self.b = World(root, thr, peer=peers[1], share=self.a)
+        assert self.a.key != self.b.key
+        self.ws = [self.a, self.b]
+        self.hevents = []
+
+    def start(self):
+        self.a.start()
+        self.b.start()
+
+    def restart(self):
+        self.b.kill()
+        self.a.kill()
+        self.start()
+
+    def observe(self):
+        return [w.observe() for w in self.ws]
+
+    def do(self, ev):
+        if ev[0] == 'restart':
+            self.restart()
+            self.a.log('Restart')
+            self.b.log('Restart')
+            self.hevents.append('HRestart')
+            return
+        who, other = self.ws[ev[1]], self.ws[1 - ev[1]]
+        if ev[0] == 'ev':
+            who.do(['ev'] + ev[2:])
+        elif who.h is None:                 # not running: the crash is just the end of the process
+            self.restart()
+            who.log('Crash %s true 2 %d' % (who.coq_cb(ev[2], ev[4]), ev[5]))
+            other.log('Restart')
+        else:                               # the process dies inside who's write; both logs are re-opened
+            who.crash_prepare(ev[2], ev[3], ev[4])
+            other.kill()
+            who.crash_finish(ev[5], restart=False)
+            self.start()
+            other.log('Restart')
+        self.hevents.append(who.hevents[-1])
+
+    def close(self):
+        self.b.close()
+        self.a.close()
 
 
 # ---------------------------------------------------------------------------------
@@ -683,6 +791,52 @@ def thresholds(root, hist, rng, thorough):
     if not thorough and len(out) > 4:
         out = out[:2] + rng.sample(out[2:], 2)
     return out
+
+
+def address_cases(ctx, hists):
+    """the peer-address dimension: (peer as configured, spellings the callbacks arrive with,
+    threshold, history) and (pair of peers, threshold, pair history)"""
+    rng = ctx.rng
+    small = ['ev', 'send_open', 0, True]
+    upd = ['ev', 'update_received', 1, True]
+    R = ['restart']
+    H = [
+        [small, upd, upd, small, upd, R, upd, small, R],
+        [['ev', cb, GOOD[i % len(GOOD)], True] for i, cb in enumerate(CALLBACKS)] + [upd, small, upd, R, small, R],
+        [upd, ['crash', 'update_received', 1, True, 0], upd, ['crash', 'send_open', 0, True, 10 ** 9], upd, small, R],
+        [upd, ['ev', 'update_received', ['sz', 5000], True], R, upd, small, R],
+    ]
+    thrs = [1 << 40, 1, 300]             # never / a rotation after every update / after every second one
+    singles = []
+    for p in PEERS:
+        variants = [[p]]
+        alts = [x for x in (p.lower(), p.upper(), p.swapcase()) if x != p]
+        alts = [x for i, x in enumerate(alts) if x not in alts[:i]]
+        if alts:
+            variants += [[p] + alts, alts]         # spelling changes from event to event / never the configured one
+        for sp in variants:
+            for thr in thrs:
+                for h in (H if ctx.thorough or sp is variants[0] else H[:2]):
+                    singles.append((p, sp, thr, h))
+    for h in hists:                                  # the histories of section 2 under another address
+        p = rng.choice([x for x in PEERS if x != x.lower()])
+        allr = [x for ev in h for x in (ev, R)]
+        for thr in (1, 300):
+            singles.append((p, [p], thr, h + [R]))
+            singles.append((p, [p], thr, allr))
+    pairs = []
+    PH = [
+        [['ev', 0] + small[1:], ['ev', 1] + upd[1:], ['ev', 0] + upd[1:], ['ev', 1] + small[1:], ['ev', 0] + upd[1:], R,
+         ['ev', 1] + upd[1:], ['ev', 0] + small[1:], ['ev', 1] + upd[1:], ['ev', 0] + upd[1:], R],
+        [['ev', 0] + upd[1:], ['ev', 1] + upd[1:], ['crash', 0, 'update_received', 1, True, 0], ['ev', 1] + upd[1:],
+         ['crash', 1, 'send_open', 0, True, 10 ** 9], ['ev', 0] + upd[1:], ['ev', 1] + small[1:], ['ev', 0] + small[1:], R],
+    ]
+    for ps in [('10.0.0.2', '2001:DB8::1'), ('2001:DB8::1', '10.0.0.2'), ('2001:DB8::1', '2001:db8::2'),
+               ('FE80::ABCD:EF01', 'fe80::abcd:ef02'), ('2001:dB8:0:0:AbCd::F', '::FFFF:10.0.0.2')]:
+        for thr in thrs:
+            for h in PH:
+                pairs.append((ps, thr, h))
+    return singles, pairs
 
 
 SUFFIX = [['ev', 'update_received', 1, True], ['ev', 'send_open', 0, True], ['restart']]
@@ -802,10 +956,44 @@ def describe(thr, files, evs):
     return {'thr': thr, 'files': files, 'events': evs, 'code': CODE}
 
 
-def run_case(root, thr, files, evs):
+def run_pair(root, thr, peers, evs):
+    w = Pair(root, thr, peers)
+    w.start()
+    obs = [w.observe()]
+    for ev in evs:
+        w.do(ev)
+        obs.append(w.observe())
+    return w, obs
+
+
+def finish_addr(w, case, obs, cases, violations, stats):
+    """audit of every peer's log + handler-level model (events carry the address as spelled)"""
+    ws = w.ws if isinstance(w, Pair) else [w]
+    stats['cases'] += 1
+    stats['address_cases'] = stats.get('address_cases', 0) + 1
+    for x in ws:
+        fails = x.audit()
+        for fl in x.flags:
+            stats['class_' + fl] = stats.get('class_' + fl, 0) + 1
+        if fails:
+            kid, new = x.explain(fails)
+            stats['failing'] = stats.get('failing', 0) + 1
+            violations.append({'what': '%s [peer %s; threshold %d; history %s]'
+                                       % (new or fails[0][0], x.peer, x.thr, ' ; '.join(x.events)),
+                               'input': case, 'all': [f[0] for f in fails][:6], 'known': kid,
+                               'crashes': sum(1 for e in case['events'] if e[0] == 'crash')})
+        elif x.tear is None:
+            stats['passing_nontrivial'] += 1 if x.nrep >= 2 else 0
+    model = 'sx_htrace (htrace %s %d [%s] [%s])' % (CFG, w.thr, '; '.join(coq_addr(x.peer) for x in ws),
+                                                   '; '.join(w.hevents))
+    cases.append((model, obs if isinstance(w, Pair) else [[o] for o in obs], case))
+    w.close()
+
+
+def run_case(root, thr, files, evs, peer=PEER, spellings=None):
     """generic executor (also used by replay): returns (world-after, observations after start and
     after every event)"""
-    w = World(root, thr, files=files)
+    w = World(root, thr, files=files, peer=peer, spellings=spellings)
     w.start()
     obs = [w.observe()]
     for ev in evs:
@@ -934,6 +1122,17 @@ def run(ctx):
             oct_ok = plain and budget > 0 and literal_cost(dict(w.read())) <= 12000
             budget -= 1 if oct_ok else 0
             finish(w, describe(thr, None, evs), obs, 0, cases, violations, stats, octets=oct_ok)
+        # 4. the peer-address dimension
+        singles, pairs = address_cases(ctx, hists)
+        for peer, sp, thr, evs in singles:
+            w, obs = run_case(root, thr, None, evs, peer=peer, spellings=sp)
+            stats['rotations_max'] = max(stats['rotations_max'], len(obs[-1][0]) - 1)
+            finish_addr(w, dict(describe(thr, None, evs), peer=peer, spellings=sp), obs, cases, violations, stats)
+        for peers, thr, evs in pairs:
+            w, obs = run_pair(root, thr, list(peers), evs)
+            finish_addr(w, dict(describe(thr, None, evs), peers=list(peers)), obs, cases, violations, stats)
+        stats['peer_addresses'] = {'single': len(singles), 'pairs_in_one_handler': len(pairs),
+                                   'starts_by_configured_address': dict(PEERSTAT)}
         inv, extra_cbs = inventory()
     finally:
         os.fsync = real_fsync
@@ -1016,8 +1215,16 @@ def replay(ctx, obj):
     real_fsync = os.fsync
     os.fsync = _fsync
     try:
-        w, obs = run_case(root, case['thr'], case.get('files'), case['events'])
+        if case.get('peers'):
+            pw, obs = run_pair(root, case['thr'], case['peers'], case['events'])
+            w = ([x for x in pw.ws if x.audit()] or pw.ws)[0]
+            print('two peers in one handler: %s; shown: %s' % (case['peers'], w.peer))
+        else:
+            pw = None
+            w, obs = run_case(root, case['thr'], case.get('files'), case['events'],
+                              peer=case.get('peer', PEER), spellings=case.get('spellings'))
         fails = w.audit()
+        print('peer address as configured: %s; callbacks arrive with: %s' % (w.peer, w.spellings))
         for n, d in w.read():
             print('file %s: %d octets' % (n, len(d)))
             for t, term in split_lines(d):
@@ -1028,7 +1235,7 @@ def replay(ctx, obj):
         for f in fails:
             print('FAIL:', f[0])
         kid = w.known_id(fails) if fails else None
-        w.close()
+        (pw or w).close()
     finally:
         os.fsync = real_fsync
     if fails:
